@@ -47,7 +47,8 @@ C09Four(u)  == C09Of(4, LayoutsFew(4), {{}})
 C09FourNever(u) == C09Of(4, LayoutsMore(4), SUBSET (1..4))
 \* schedules, dependencies, never-resolving and unknown references together
 MixedSmall(u) == UNION {{Mk(f, sch, d, nv, unk) : f \in {<<Mixed(1, n)>>, <<Singles(1, 1), Mixed(2, n)>>},
-                        sch \in [1..n -> 0..1], d \in DepsOf(n), nv \in SUBSET (1..n),
+                        sch \in [1..n -> 0..1], d \in {e \in DepsOf(n) : \A i \in 1..n : Cardinality(e[i]) <= 1},
+                        nv \in {{}} \cup {{r} : r \in 1..n},
                         unk \in {{}} \cup {{r} : r \in 1..n}} : n \in 1..3}
 
 \* --- selection of a family and of a shard through the environment ----------
